@@ -211,6 +211,14 @@ func eqTV(got sql.TypedValue, want val, k col) string {
 	return ""
 }
 
+// sqlEqualZero: -0.0 and +0.0 are the same SQL value ("decodes back to an equal value"): an index key may
+// normalise the sign of zero.
+func sqlEqualZero(got sql.TypedValue, want val) bool {
+	g, ok1 := got.RawValue().(float64)
+	w, ok2 := want.Raw.(float64)
+	return ok1 && ok2 && g == 0 && w == 0
+}
+
 func render(raw interface{}) string {
 	switch v := raw.(type) {
 	case string:
@@ -320,7 +328,7 @@ func checkColumn(k col, strLen int) *colData {
 			if err != nil {
 				rtBad = true
 				viol("key-roundtrip "+id, "DecodeValueFromKey: "+err.Error(), rp)
-			} else if d := eqTV(dec, v, k); d != "" || m != len(enc) {
+			} else if d := eqTV(dec, v, k); (d != "" && !sqlEqualZero(dec, v)) || m != len(enc) {
 				rtBad = true
 				viol("key-roundtrip "+id, fmt.Sprintf("DecodeValueFromKey(EncodeValueAsKey(v)): %s; consumed %d of %d bytes; key=%x", d, m, len(enc), enc), rp)
 			}
@@ -432,7 +440,7 @@ func checkComposite(cds []*colData) {
 				}
 				if err1 != nil || err2 != nil || hdr+n1+n2 != len(mk) {
 					viol("composite-roundtrip "+id, fmt.Sprintf("err1=%v err2=%v consumed %d+%d of %d", err1, err2, n1, n2, len(mk)-hdr), nil)
-				} else if e1, e2 := eqTV(d1, A.Vals[i], A.K), eqTV(d2, B.Vals[j], B.K); e1 != "" || e2 != "" {
+				} else if e1, e2 := eqTV(d1, A.Vals[i], A.K), eqTV(d2, B.Vals[j], B.K); (e1 != "" && !sqlEqualZero(d1, A.Vals[i])) || (e2 != "" && !sqlEqualZero(d2, B.Vals[j])) {
 					if !A.RTBad[i] && !B.RTBad[j] { // otherwise reported at column level
 						viol("composite-roundtrip "+id, e1+" / "+e2, nil)
 					}
